@@ -20,6 +20,7 @@ namespace AIToolbox::POMDP {
 
         // Values must be written with enough digits to be read back exactly.
         const auto oldPrecision = os.precision(std::numeric_limits<double>::max_digits10);
+        const auto oldFlags = os.setf(std::ios::dec, std::ios::basefield | std::ios::floatfield);
 
         // VLists
         for ( size_t h = 1; h < vf.size(); ++h ) {
@@ -42,6 +43,7 @@ namespace AIToolbox::POMDP {
         // put on the stream, and the loader will work.
         os << "@\n";
 
+        os.flags(oldFlags);
         os.precision(oldPrecision);
         return os;
     }
